@@ -174,6 +174,12 @@ def validate(ctx, mods: list[str], ex: Exploration, per_fn: int = 60) -> None:
             fnp = tuple(p for p, k in site["params"].items() if k in ("fn", "fn2", "fnb"))
             entries.append((sn, sitemod.compile_site(fd, senv, fnp), list(site["params"]), site["params"], seg))
         for fn, f, order, params, seg in entries:
+            if any(p not in params for p in order):
+                # the signature no longer matches the declared kinds: the translator has already refused this function
+                ex.findings.append(Finding(kind="model", key=f"translator:{m}.{fn}",
+                                           what=f"parameters {[p for p in order if p not in params]} of {fn} have no declared kind",
+                                           case={"module": m, "function": fn}))
+                continue
             exact = not any(t in seg for t in TRANSC) and not item.get("uses")   # callees in other modules may use exp
             for _ in range(per_fn):
                 k = rng.randint(1, 3)
